@@ -360,13 +360,18 @@ def seqDag (nEnt : Nat) : Cfg Dag.DSh Dag.DTh → List Dag.DOp → List String
         | _ => ["block"]
       | _ => ["nondet"]
 
-/-- consumer counts and registry bits of the composed model -/
+/-- consumer counts, registry bits and the lock state (`writer/readers`, `-` without a mutex) per entity of the
+composed model -/
 def compReg (nEnt : Nat) (c : Cfg Comp.CSh Comp.CTh) : String :=
-  joinNat ((List.range nEnt).map c.1.cnt) ++ ":" ++ bits ((List.range nEnt).map (fun x => (c.1.ent x).isSome))
+  joinNat ((List.range nEnt).map c.1.cnt) ++ ":" ++ bits ((List.range nEnt).map (fun x => (c.1.ent x).isSome)) ++ ":" ++
+    ",".intercalate ((List.range nEnt).map fun x =>
+      match c.1.ent x with
+      | none => "-"
+      | some o => (if (c.1.heap o).writer then "1" else "0") ++ "/" ++ toString (c.1.heap o).readers)
 
 /-- Sequential calls against the composed model.  The run goes on after a panic when the registry mutex `d.Mutex` is
-free again (`live:` + the registry as the panic left it; the calls that follow are issued by a fresh goroutine `i+1`);
-a panic inside `Unlock`'s `unregisterMutex` leaves `d.Mutex` locked: `frozen`. -/
+free again (`live:` + the registry and the lock states as the panic left them; the calls that follow are issued by a
+fresh goroutine `i+1`); `frozen` = `d.Mutex` left locked (no panic of the repaired code does that). -/
 def seqComp (nEnt : Nat) : Cfg Comp.CSh Comp.CTh → Nat → List Dag.DOp → List String
   | _, _, [] => []
   | c, i, op :: ops =>
